@@ -1348,11 +1348,11 @@ def run(ctx: Ctx, st: Optional[LeanStatus]) -> Result:
     ctx.log(f"corpus replayed: {res.witness_status} mismatches={len(res.mismatches)}")
     corr_spec_py(ctx, st, res)
     ctx.log(f"Spec.Py correspondence done: mismatches={len(res.mismatches)}")
-    cases = make_cases(ctx.sub_rng("default"), ctx.budget(260, 2000), None, "rand")
-    judge(ctx, st, res, cases, "default", ctx.budget(90, 600))
+    cases = make_cases(ctx.sub_rng("default"), ctx.budget(400, 4000), None, "rand")
+    judge(ctx, st, res, cases, "default", ctx.budget(140, 1200))
     ctx.log(f"default region done: evaluations={res.evaluations} mismatches={len(res.mismatches)} failures={len(res.failures)}")
-    rcases = make_cases(ctx.sub_rng("regions"), ctx.budget(90, 800), REGION_FEATURES, "region")
-    judge(ctx, st, res, rcases, "regions", ctx.budget(25, 160))
+    rcases = make_cases(ctx.sub_rng("regions"), ctx.budget(120, 1500), REGION_FEATURES, "region")
+    judge(ctx, st, res, rcases, "regions", ctx.budget(40, 300))
     ctx.log(f"finding regions done: evaluations={res.evaluations} mismatches={len(res.mismatches)} failures={len(res.failures)}")
     res.oracle_only += [
         "'that class alone validates the same payload' (fragment_class_validates, should-tier): needs the pydantic reference semantics of C01; judged only by FragClass.model_validate(sub_payload) on the real packages",
